@@ -318,17 +318,33 @@ func (pd *PsDigest) MakePatch(sig []byte) (*binpatch.PatchSet, error) {
 }
 
 func readLine(br *bufio.Reader, isUtf16 bool) (string, error) {
-	line, err := br.ReadString('\n')
-	if isUtf16 && err == nil {
-		// \n\0
-		var zero byte
-		zero, err = br.ReadByte()
-		if zero != 0 {
-			return "", errors.New("malformed utf16")
-		}
-		line += "\x00"
+	if !isUtf16 {
+		return br.ReadString('\n')
 	}
-	return line, err
+	// a line ends with the code unit \n\0; a 0x0a byte can also be one half of
+	// another code unit (U+010A, U+0A05, ...)
+	var line string
+	for {
+		chunk, err := br.ReadString('\n')
+		line += chunk
+		if err != nil {
+			return line, err
+		}
+		if len(line)%2 == 0 {
+			// high byte of a code unit
+			continue
+		}
+		hi, err := br.ReadByte()
+		if err == io.EOF {
+			return line + "\x00", err
+		} else if err != nil {
+			return "", err
+		}
+		line += string([]byte{hi})
+		if hi == 0 {
+			return line, nil
+		}
+	}
 }
 
 // Convert UTF8 to UTF-16-LE
